@@ -11,6 +11,7 @@ import (
 	"fmt"
 	"io"
 	"net"
+	"net/netip"
 	"os"
 	"runtime"
 	"strings"
@@ -630,4 +631,177 @@ func (f *c13FaultyDeadline) SetWriteDeadline(t time.Time) error {
 	}
 
 	return f.c12Base.SetWriteDeadline(t)
+}
+
+// TestVerif_C13_SiblingReadersThroughMux: several handles of one ufrag on a real UDPMuxDefault, a reader parked
+// on each; one datagram arrives while one handle is being closed (order and gap drawn).  Closing a handle must
+// not cost the siblings their wake-up: the datagram is handed to some reader, it does not stay queued behind
+// parked readers of open handles.
+func TestVerif_C13_SiblingReadersThroughMux(t *testing.T) {
+	st := vfNewStats(t)
+	lf := logging.NewDefaultLoggerFactory()
+	lf.DefaultLogLevel = logging.LogLevelDisabled
+	rapid.Check(t, func(rt *rapid.T) {
+		n := rapid.IntRange(2, 4).Draw(rt, "handles")
+		base := newC12Base("10.0.0.1:7000")
+		mux := NewUDPMuxDefault(UDPMuxParams{Logger: lf.NewLogger("verif"), UDPConn: base})
+		defer mux.Close() //nolint:errcheck
+		hs := make([]net.PacketConn, n)
+		for i := range hs {
+			h, err := mux.GetConn("ufragX", base.local)
+			if err != nil {
+				rt.Fatalf("harness: %v", err)
+			}
+			hs[i] = h
+		}
+		mux.mu.Lock()
+		under, _ := mux.getConn("ufragX", false)
+		mux.mu.Unlock()
+		type res struct {
+			n   int
+			err error
+		}
+		open := make([]bool, n)
+		pending := make([]chan res, n)
+		for i := range open {
+			open[i] = true
+		}
+		startReaders := func() int {
+			cnt := 0
+			for i := range hs {
+				if open[i] && pending[i] == nil {
+					ch := make(chan res, 1)
+					pending[i] = ch
+					go func(h net.PacketConn) {
+						nn, _, err := h.ReadFrom(make([]byte, 1500))
+						ch <- res{nn, err}
+					}(hs[i])
+				}
+				if pending[i] != nil {
+					cnt++
+				}
+			}
+
+			return cnt
+		}
+		queued := func() bool {
+			under.mu.Lock()
+			defer under.mu.Unlock()
+
+			return under.bufTail != nil
+		}
+		src := netip.MustParseAddrPort("198.51.100.9:4000")
+		var hist []string
+		raced := 0
+		for round := 0; round < n-1; round++ {
+			// every open handle gets a parked reader (readers that have returned meanwhile are replaced)
+			for d := time.Now().Add(20 * time.Second); ; {
+				for i := range pending {
+					if pending[i] != nil && open[i] {
+						select {
+						case r := <-pending[i]:
+							pending[i] = nil
+							if r.err != nil {
+								st.Fail(rt, "C13/refcount/sibling-read-failed", "reader of open handle h%d returned %v\n%s", i, r.err, strings.Join(hist, "\n"))
+							}
+						default:
+						}
+					}
+				}
+				if want := startReaders(); int(under.readWaiting.Load()) == want && !queued() {
+					break
+				}
+				if time.Now().After(d) {
+					st.Inconclusive()
+					rt.Fatalf("VERIF-INCONCLUSIVE: readers not parked after 20 s")
+				}
+				runtime.Gosched()
+			}
+			var openIdx []int
+			for i := range open {
+				if open[i] {
+					openIdx = append(openIdx, i)
+				}
+			}
+			victim := openIdx[rapid.IntRange(0, len(openIdx)-1).Draw(rt, "victim")]
+			pushFirst := rapid.Bool().Draw(rt, "pushFirst")
+			gap := rapid.IntRange(0, 40).Draw(rt, "gapMicros")
+			spin := func() {
+				for t0 := time.Now(); time.Since(t0) < time.Duration(gap)*time.Microsecond; {
+				}
+			}
+			var wg sync.WaitGroup
+			wg.Add(2)
+			go func() {
+				defer wg.Done()
+				if !pushFirst {
+					spin()
+				}
+				base.push(c12In{data: c12Stun("ufragX:peer", true), src: src})
+			}()
+			go func() {
+				defer wg.Done()
+				if pushFirst {
+					spin()
+				}
+				_ = hs[victim].Close()
+			}()
+			wg.Wait()
+			open[victim] = false
+			hist = append(hist, fmt.Sprintf("round %d: close h%d, pushFirst=%v gap=%dµs", round, victim, pushFirst, gap))
+			// the victim's pending read returns (with the datagram or with an error)
+			delivered := false
+			select {
+			case r := <-pending[victim]:
+				pending[victim] = nil
+				if r.err == nil && r.n > 0 {
+					delivered = true
+				}
+			case <-time.After(20 * time.Second):
+				dead, dump := vfStuck("udpMuxedConn")
+				if dead {
+					st.Fail(rt, "C13/refcount/pending-read-on-closed-handle", "pending read of the closed handle never returned\n%s\n%s", strings.Join(hist, "\n"), dump)
+				}
+				st.Inconclusive()
+				rt.Fatalf("VERIF-INCONCLUSIVE: pending read of the closed handle still running after 20 s")
+			}
+			// the datagram goes to some reader; it must not stay queued behind parked readers of open handles
+			for d := time.Now().Add(3 * time.Second); !delivered; {
+				for i := range pending {
+					if pending[i] == nil {
+						continue
+					}
+					select {
+					case r := <-pending[i]:
+						pending[i] = nil
+						if r.err != nil {
+							st.Fail(rt, "C13/refcount/sibling-read-failed", "reader of open handle h%d returned %v\n%s", i, r.err, strings.Join(hist, "\n"))
+						}
+						delivered = true
+					default:
+					}
+				}
+				if delivered || !queued() {
+					break
+				}
+				if time.Now().After(d) {
+					parked := under.readWaiting.Load()
+					st.Fail(rt, "C13/refcount/sibling-reader-not-woken", "a datagram is still queued 3 s after it arrived while %d reader(s) of open handles stay parked\n%s", parked, strings.Join(hist, "\n"))
+
+					break
+				}
+				time.Sleep(50 * time.Microsecond)
+			}
+			if gap <= 5 {
+				raced++
+			}
+		}
+		for i := range hs {
+			_ = hs[i].Close()
+		}
+		st.Record(vfHashStr(strings.Join(hist, ";")), raced > 0, fmt.Sprintf("handles:%d", n), fmt.Sprintf("close-within-5µs-of-arrival:%v", raced > 0))
+		if raced > 0 && st.WantSample() {
+			st.Sample(func() string { return strings.Join(hist, "; ") })
+		}
+	})
 }
